@@ -77,6 +77,33 @@ let run_sd () =
       let c = st.cells (nat_of_int r) (nat_of_int s) in
       List.iter (fun (t, x) -> Buffer.add_string buf (Printf.sprintf "%d,%d,%d,%.6f;" (int_of_nat t) r s (float_of_q x))) c.entries) keys;
   String.concat " " rs ^ " | " ^ Buffer.contents buf
+(* the same for teams (Model/SubSlotTeam.v): sdt ... per task: ... effort_num effort_den nteam team.. ndeps ... *)
+let run_sdt () =
+  let upper = geti () in
+  let g = geti () in
+  let res = getlist (fun () ->
+      let w = Array.of_list (getlist (fun () -> geti () <> 0)) in
+      let en = geti () in let ed = geti () in
+      { sr_work = (fun s -> let i = int_of_nat s in i < Array.length w && w.(i)); sr_eff = q_of en ed }) in
+  let tasks = getlist (fun () ->
+      let leaf = geti () <> 0 in let leaves = getlist getn in
+      let prio = z_of_int (geti ()) in let mile = geti () <> 0 in
+      let en = geti () in let ed = geti () in let team = getlist getn in
+      let deps = getlist (fun () -> let t = getn () in let o = geti () <> 0 in let gp = z_of_int (geti ()) in
+                           { sd_task = t; sd_onstart = o; sd_gap = gp }) in
+      let pin = geti () in let lb = z_of_int (geti ()) in
+      { tt_leaf = leaf; tt_leaves = leaves; tt_prio = prio; tt_mile = mile; tt_effort = q_of en ed; tt_team = team; tt_deps = deps;
+        tt_pin = (if pin < 0 then None else Some (z_of_int pin)); tt_lb = lb }) in
+  let p = { tp_tasks = tasks; tp_res = res; tp_upper = nat_of_int upper; tp_G = z_of_int g } in
+  let (st, results) = tall_results p in
+  let rs = List.map (fun d -> match d with
+      | Some (s, e) -> Printf.sprintf "%d:%d" (int_of_z s) (int_of_z e) | None -> "-") results in
+  let buf = Buffer.create 256 in
+  let keys = List.sort_uniq compare (List.map (fun (r, s) -> (int_of_nat r, int_of_nat s)) st.stouched) in
+  List.iter (fun (r, s) ->
+      let c = st.cells (nat_of_int r) (nat_of_int s) in
+      List.iter (fun (t, x) -> Buffer.add_string buf (Printf.sprintf "%d,%d,%d,%.6f;" (int_of_nat t) r s (float_of_q x))) c.entries) keys;
+  String.concat " " rs ^ " | " ^ Buffer.contents buf
 let run_ledger () =
   let gn = geti () in let gd = geti () in
   let ops = getlist (fun () ->
@@ -94,7 +121,7 @@ let () =
       let line = input_line stdin in
       toks := Array.of_list (List.filter (fun s -> s <> "") (String.split_on_char ' ' line)); pos := 0;
       let f = next () in
-      let out = try (match f with "sched" -> run_sched false | "alap" -> run_sched true | "sd" -> run_sd () | "ledger" -> run_ledger () | _ -> "UNKNOWN") with e -> "ERROR " ^ Printexc.to_string e in
+      let out = try (match f with "sched" -> run_sched false | "alap" -> run_sched true | "sd" -> run_sd () | "sdt" -> run_sdt () | "ledger" -> run_ledger () | _ -> "UNKNOWN") with e -> "ERROR " ^ Printexc.to_string e in
       print_endline out
     done
   with End_of_file -> ()
